@@ -30,6 +30,9 @@ PLANTED = [
      "if self.stats_calc_indices >= self.stats_calc_period:", "a non-positive period and a second call with different statistics"),
     ("C09-floor", "C09", "setigen/voltage/quantization.py", "q_voltages = xp.around(factor * (x - data_mean) + target_mean)",
      "q_voltages = xp.floor(factor * (x - data_mean) + target_mean)", "any non-integer pre-rounding value"),
+    ("C09-expanded-affine", "C09", "setigen/voltage/quantization.py", "q_voltages = xp.around(factor * (x - data_mean) + target_mean)",
+     "q_voltages = xp.around(factor * x - factor * data_mean + target_mean)",
+     "a huge pedestal (|mean| about 2**50 times the deviation): the expanded form cancels catastrophically and misses the stated value by whole levels"),
     ("C09-clip-hi", "C09", "setigen/voltage/quantization.py", "2**(num_bits - 1) - 1)", "2**(num_bits - 1))", "an input above the range"),
     ("C09-shared-cache", "C09", "setigen/voltage/quantization.py",
      "q_i = self.quantizer_i.quantize(xp.imag(voltages), custom_std=custom_stds[1])",
@@ -147,6 +150,27 @@ BENIGN = [
     ("benign-header-copy", ["C12", "C04"], "setigen/voltage/backend.py", "        header_dict = dict(header_dict)\n", "        header_dict = copy.copy(header_dict)\n"),
     ("benign-noise-order", ["C11"], "setigen/frame.py", "        set_to_param = (self.noise_mean == self.noise_std == 0)\n        if set_to_param:\n            self.noise_mean, self.noise_std = x_mean, x_std\n        else:\n            self._update_noise_frame_stats()\n\n        return noise\n\n    def add_noise_from_obs",
      "        if self.noise_mean == 0 and self.noise_std == 0:\n            self.noise_std = x_std\n            self.noise_mean = x_mean\n        else:\n            self._update_noise_frame_stats()\n\n        return noise\n\n    def add_noise_from_obs"),
+    ("benign-tpb-reassoc", ["C20", "C04", "C02"], "setigen/voltage/backend.py", "        self.time_per_block = self.samples_per_block * self.tbin",
+     "        self.time_per_block = self.samples_per_block * self.num_branches / self.sample_rate"),
+    ("benign-chanbw-direct", ["C04", "C20"], "setigen/voltage/backend.py", "        self.chan_bw = 1 / self.tbin",
+     "        self.chan_bw = self.sample_rate / self.num_branches"),
+    ("benign-obsfreq-reassoc", ["C04"], "setigen/voltage/backend.py",
+     "        center_freq = (self.start_chan + (self.num_chans - 1) / 2) * self.chan_bw\n        center_freq += self.fch1",
+     "        center_freq = self.fch1 + self.start_chan * self.chan_bw + (self.num_chans - 1) * self.chan_bw / 2"),
+    ("benign-quant-reassoc", ["C09", "C02", "C14"], "setigen/voltage/quantization.py", "q_voltages = xp.around(factor * (x - data_mean) + target_mean)",
+     "q_voltages = xp.around((x - data_mean) * factor + target_mean)"),
+    ("benign-chi2-scale", ["C11", "C12", "C06"], "setigen/distributions.py", "    return rng.chisquare(df=chi2_df, size=shape) * x_mean / chi2_df",
+     "    return rng.chisquare(df=chi2_df, size=shape) * (x_mean / chi2_df)"),
+    ("benign-fs-arange", ["C03", "C17", "C06", "C16"], "setigen/frame.py",
+     "            self.fs = np.linspace(self.fmin,\n                                  self.fmin + self.fchans * self.df,\n                                  self.fchans,\n                                  endpoint=False)",
+     "            self.fs = self.fmin + np.arange(self.fchans) * self.df"),
+    ("benign-ts-arange", ["C03", "C17", "C06", "C16", "C18"], "setigen/frame.py",
+     "        self.ts = unit_utils.get_value(np.linspace(0,\n                                                   self.tchans * self.dt,\n                                                   self.tchans,\n                                                   endpoint=False),\n                                       u.s)",
+     "        self.ts = unit_utils.get_value(np.arange(self.tchans) * self.dt, u.s)"),
+    ("benign-chirp-horner", ["C10", "C15"], "setigen/voltage/data_stream.py", "((f_start - self.fch1) * ts + 0.5 * drift_rate * ts**2)",
+     "(ts * ((f_start - self.fch1) + 0.5 * drift_rate * ts))"),
+    ("benign-get-index-rint", ["C06", "C17"], "setigen/frame.py", "        return np.round((unit_utils.get_value(frequency, u.Hz) - self.fmin) / self.df).astype(int)",
+     "        return np.rint((unit_utils.get_value(frequency, u.Hz) - self.fmin) / self.df).astype(int)"),
     ("benign-save-str-path", ["C03"], "setigen/frame.py", "        self.waterfall.write_to_fil(filename)", "        self.waterfall.write_to_fil(str(filename))"),
 ]
 
